@@ -33,8 +33,8 @@ from operon_ai.surveillance.types import (MHCPeptide, ThreatLevel as TL, Respons
 
 ID = "C17"
 LEVEL = "exploration"
-ENGINE = "seq"
-RUNS = {"quick": 24_000, "thorough": 1_200_000}
+ENGINE = "seq+threads"
+RUNS = {"quick": 18_000, "thorough": 1_200_000}
 RULE = ("seeded histories over {record_observation (windows refilled, single drifts, observations computed to put the "
         "window mean on / 1e-7 / 1e-3 either side of a trained bound), canary results, train_agent, inspect, flag_agent, "
         "tcell.reset, reset_without_confirmation cycles up to anergy, mark_agent_updated, tolerated violations, "
@@ -45,11 +45,16 @@ RULE = ("seeded histories over {record_observation (windows refilled, single dri
         "growing or saturated, with and without errors, confidences on probability / percent / log scales, histories "
         "that run past the sliding window and recover; 'inside the baseline' is computed from the observations the "
         "harness fed (last window_size), never from the display's own fingerprint; non-trivial = history with an anomaly streak >= 2, a reset of a trained "
-        "watcher, or a second successful training; distinct = distinct (configuration, operation list)")
+        "watcher, or a second successful training; distinct = distinct (configuration, operation list). Threads "
+        "family (every 12th run): 2-3 tasks x 1-3 TCell.inspect calls through ONE watcher (one caller mostly clean "
+        "fingerprints, the other mostly anomalous, manual flag usually set) under the seeded line-granularity "
+        "scheduler over tcell.py/thymus.py; only the per-call clauses inside_none / alarm_without_signal1 are judged; "
+        "non-trivial = a task was pre-empted inside inspect()")
 COMPONENTS = {"real": ["operon_ai.surveillance.immune_system.ImmuneSystem", "MHCDisplay", "Thymus/BaselineProfile",
                        "TCell", "RegulatoryTCell", "ImmuneMemory"],
               "stub": ["tolerance-rule conditions (scripted)", "datetime.utcnow (virtual clock)",
-                       "recorders around TCell.inspect and RegulatoryTCell.evaluate (pass-through)"]}
+                       "recorders around TCell.inspect and RegulatoryTCell.evaluate (pass-through)",
+                       "threads family: the OS scheduler (seeded scheduler); the subject has no lock"]}
 ASSUMPTIONS = [
     "a value exactly on a bound (within 1e-9 relative) is neither asserted inside nor outside the baseline",
     "observations are finite numbers (no NaN/inf response times or confidences)",
@@ -65,11 +70,16 @@ ASSUMPTIONS = [
     "which threats are graded CRITICAL rather than CONFIRMED is not fixed by the statement and is not judged",
     "the system answer is judged against the watcher's response table (NONE/IGNORE .. CRITICAL/SHUTDOWN): at most "
     "one step lower, CRITICAL untouched; an action above the table is not judged",
+    "threads family: the surveillance classes have no lock, so only clauses that hold for every interleaving of the "
+    "shipped code are judged there (an answer computed from the call's own fingerprint: inside the baseline => "
+    "NONE/IGNORE); streaks, anergy counts and Treg records shared between overlapping calls are not judged; "
+    "pre-emption granularity is the source line",
 ]
 EXPECT_PROBES = ("confirmed", "critical", "suspicious", "anergic_silent", "treg_lowered", "treg_saw_critical",
                  "remembered_threat_present", "retrained", "edge_zone", "canary_failed", "flag_present_outside",
                  "flag_or_memory_inside", "self_tolerance_checked", "direct_tcell", "direct_treg", "mem_pruned",
-                 "streak_confirmed", "answer_one_step_below_table", "recalled_lowered_answer")
+                 "streak_confirmed", "answer_one_step_below_table", "recalled_lowered_answer",
+                 "threads_run", "threads_preempted_in_inspect", "threads_inside_inspected", "threads_outside_alarm")
 
 LEVELS = [TL.NONE, TL.SUSPICIOUS, TL.CONFIRMED, TL.CRITICAL]
 # what the watcher itself recommends for a threat level (its response table)
@@ -133,7 +143,7 @@ def _gen_system(rng, tier):
     nseg = rng.randint(2, 6 if tier == "quick" else 10)
     table = [(4, "out_streak"), (2.5, "back"), (2.5, "retrain"), (2.5, "edge"), (1.5, "canary"), (1.5, "flag"),
              (2, "alarm"), (1, "reset"), (2.5, "treg"), (2, "mem"), (1, "clock"), (1.2, "other"), (1, "drift"),
-             (2.5, "tolerated_repeat"), (1.2, "mutate"), (2.5, "recover")]
+             (2.5, "tolerated_repeat"), (1.2, "mutate"), (2.5, "recover"), (1.5, "anergic_then")]
     for _ in range(nseg):
         seg = weighted(rng, table)
         g = 0 if (base[1] is None or rng.random() < 0.8) else 1
@@ -164,6 +174,21 @@ def _gen_system(rng, tier):
                 ops.append(["inspect", g])
                 if rng.random() < 0.15:
                     ops.append(["clock", rng.choice([10.0, 3601.0])])
+        elif seg == "anergic_then":
+            # drive the watcher to anergy, then use every other public handle on it, then give it both signals
+            n = rng.choice([2, 5, 5])
+            if n != 5:
+                ops.append(["tc_thresholds", g, 3, n])
+            s = _spec(rng, base[g])
+            cur[g] = s
+            ops.append(["fill", g, *s, window])
+            for _ in range(n):
+                ops += [["inspect", g], ["reset_nc", g]]
+            ops.append(rng.choice([["reset", g], ["reset", g], ["updated", g], ["canary", g, False], ["clock", 3601.0]]))
+            if rng.random() < 0.8:
+                ops.append(["flag", g])
+            for _ in range(rng.randint(1, 3)):
+                ops.append(["inspect", g])
         elif seg == "recover":
             # go bad, be looked at (with or without new canary results), run well past the window, be looked at again
             s = _spec(rng, base[g])
@@ -309,12 +334,16 @@ def _gen_direct(rng, tier):
 
 
 def gen(rng, tier, i):
+    if i % 12 == 11:      # decided by the run index so that the plans of all other runs stay what they were
+        return _gen_threads(rng, tier)
     if rng.random() < 0.25:
         return _gen_direct(rng, tier)
     return _gen_system(rng, tier)
 
 
 def simplify(plan):
+    if plan["family"] == "threads":
+        return
     cfg = plan["config"]
     if cfg.get("rules"):
         for j in range(len(cfg["rules"])):
@@ -927,8 +956,144 @@ def run_direct(plan, k):
     k.nontrivial = nontrivial
 
 
+# ----------------------------------------------------------------------------- threads family
+# One TCell keeps its per-call scratch (`state`) on self, so two callers inspecting through the same watcher is the
+# overlap worth looking at.  Only per-call clauses that hold under EVERY interleaving of the unchanged code are
+# judged: a fingerprint strictly inside the baseline is answered NONE/IGNORE, and an alarm needs a fingerprint that
+# is not inside (the answer of the unchanged inspect() is computed from its own locals).  Streaks, anergy counts and
+# everything else that is shared between the calls is deliberately not judged here.
+STRATEGIES = [(1, {"kind": "serial"}), (2, {"kind": "uniform"}), (3, {"kind": "sticky", "p": 0.7}),
+              (3, {"kind": "sticky", "p": 0.9}), (2, {"kind": "pct", "d": 1, "est": 80}),
+              (2, {"kind": "pct", "d": 2, "est": 120}), (2, {"kind": "pct", "d": 3, "est": 160})]
+SRC = None
+
+
+def _gen_threads(rng, tier):
+    lo = rng.choice([0.0, 10.0, 99.5])
+    cfg = {"len": [lo, lo + rng.choice([5.0, 100.0])], "time": [0.5, 2.0], "conf": [0.6, 1.0],
+           "err_max": rng.choice([0.05, 0.2]), "canary_min": rng.choice([0.0, 0.45, 0.9]),
+           "rep": rng.choice([1, 1, 2, 3]), "anergy": 5, "strategy": dict(weighted(rng, STRATEGIES))}
+
+    def pep(inside):
+        p = {"len": "in", "time": "in", "conf": "in", "err": "ok", "vocab": 0, "struct": 0, "canary": "none"}
+        if inside:
+            if rng.random() < 0.3:
+                p["canary"] = "above"
+        else:
+            for f in rng.sample(["len", "time", "conf", "err", "vocab", "struct", "canary"], rng.randint(1, 4)):
+                p[f] = (rng.choice(["lo-", "hi+", "far"]) if f in ("len", "time", "conf") else "over" if f == "err"
+                        else 1 if f in ("vocab", "struct") else rng.choice(["below", "lt05"]))
+        return ["pep", p["len"], p["time"], p["conf"], p["err"], p["vocab"], p["struct"], p["canary"]]
+    pre = [["flag"]] if rng.random() < 0.8 else []
+    if rng.random() < 0.3:
+        pre.append(pep(False))
+    tasks = []
+    for t in range(rng.choice([2, 2, 3])):
+        # one caller mostly sees clean fingerprints, the other mostly anomalous ones
+        tasks.append([pep(rng.random() < (0.8 if t % 2 == 0 else 0.2)) for _ in range(rng.randint(1, 3))])
+    return {"family": "threads", "config": cfg, "pre": pre, "tasks": tasks}
+
+
+def _profile(cfg):
+    return BaselineProfile(agent_id="a", output_length_bounds=tuple(cfg["len"]), response_time_bounds=tuple(cfg["time"]),
+                           confidence_bounds=tuple(cfg["conf"]), error_rate_max=cfg["err_max"],
+                           valid_vocabulary_hashes={"v0"}, valid_structure_hashes={"s0"},
+                           canary_accuracy_min=cfg["canary_min"])
+
+
+def _peptide(cfg, op):
+    cm = cfg["canary_min"]
+    canary = {"none": None, "above": min(1.0, cm + 0.05), "eq": cm, "below": cm - 0.01 if cm > 0 else None,
+              "lt05": min(0.49, cm - 0.01) if cm > 0 else None, "zero": 0.0}[op[7]]
+    return MHCPeptide(agent_id="a", timestamp=T0,
+                      output_length_mean=_pos(*cfg["len"], op[1]), output_length_std=0.0,
+                      response_time_mean=_pos(*cfg["time"], op[2]), response_time_std=0.0,
+                      vocabulary_hash="v0" if not op[5] else "vX", structure_hash="s0" if not op[6] else "sX",
+                      confidence_mean=_pos(*cfg["conf"], op[3]), confidence_std=0.0,
+                      error_rate={"ok": cfg["err_max"] / 2, "eq": cfg["err_max"], "over": cfg["err_max"] + 0.01}[op[4]],
+                      error_types=(), canary_accuracy=canary)
+
+
+def run_threads(plan, k):
+    global SRC
+    from opsim import seams
+    from opsim.core import HarnessError, derive
+    from opsim.sched import Sched
+    if SRC is None:
+        SRC = [seams.src("operon_ai/surveillance/tcell.py"), seams.src("operon_ai/surveillance/thymus.py")]
+    cfg = plan["config"]
+    prof = _profile(cfg)
+    tc = TCell(profile=prof, repeated_anomaly_threshold=cfg["rep"], anergy_threshold=cfg["anergy"])
+    sched = Sched(k, cfg.get("strategy"), switches=plan.get("switches"),
+                  rng=derive(plan.get("_seedpath", "replay"), "sched"), scope=SRC, max_steps=20_000)
+    k.probe("threads_run")
+    zones = []
+
+    def do(who, op):
+        if op[0] == "flag":
+            tc.flag_manually("operator")
+            k.ev("flag", who)
+            return
+        pep = _peptide(cfg, op)
+        z = zone(prof, pep)
+        zones.append(z)
+        k.ev("inv", [who, op[1:], z])
+        out = call(tc.inspect, pep)
+        k.ev("ret", [who, brief(out.value) if out.ok else out.brief()])
+        if not out.ok:
+            if out.kind == "raised":
+                k.probe("inspect_raised")
+                return
+            raise HarnessError(f"unexpected outcome {out.kind} of inspect() inside a scheduled task")
+        resp = out.value
+        quiet_ = resp.threat_level == TL.NONE and resp.action == RA.IGNORE
+        alarm = resp.threat_level in (TL.CONFIRMED, TL.CRITICAL) or resp.action in (RA.ISOLATE, RA.SHUTDOWN)
+        if z == "inside":
+            k.probe("threads_inside_inspected")
+            if not quiet_:
+                k.violation("inside_none", "threat_inside_baseline", "tcell:concurrent",
+                            f"reported {resp.threat_level.name}/{resp.action.name} for a fingerprint inside the baseline")
+            if alarm:
+                k.violation("two_signal", "alarm_without_signal1", "tcell:concurrent",
+                            f"{resp.threat_level.name}/{resp.action.name} for a fingerprint inside the baseline")
+        elif alarm:
+            k.probe("threads_outside_alarm")
+
+    for op in plan.get("pre") or []:
+        do("pre", op)
+
+    def body(ti, ops):
+        def f():
+            me = sched.cur
+            for op in ops:
+                me.op = "inspect"
+                do(ti, op)
+                me.op = None
+        return f
+
+    for ti, ops in enumerate(plan["tasks"]):
+        sched.spawn(body(ti, ops), name=f"t{ti}")
+    sched.run()
+    plan["switches"] = sched.switches
+    k.steps += sched.steps
+    k.key = ["threads", cfg, plan.get("pre"), plan["tasks"]]
+    k.nontrivial = sched.preempt_in_op > 0
+    if sched.preempt_in_op:
+        k.probe("threads_preempted_in_inspect")
+    for t in sched.tasks:
+        if t.exc is not None:
+            if isinstance(t.exc, HarnessError):
+                raise t.exc
+            raise HarnessError(f"task {t.name} died: {t.exc!r}")
+    v = sched.verdict
+    if v and v[0] in ("deadlock", "step_budget"):
+        raise HarnessError(f"threads family of a lock-free subject ended with verdict {v[0]}")
+
+
 def run(plan, k):
     if plan["family"] == "system":
         run_system(plan, k)
+    elif plan["family"] == "threads":
+        run_threads(plan, k)
     else:
         run_direct(plan, k)
